@@ -70,12 +70,24 @@ func c11CountFDs() int {
 	return len(ents)
 }
 
-// c11SettleFDs waits (up to 2 s) for the descriptor count to come back to want.
-func c11SettleFDs(want int) int {
-	deadline := time.Now().Add(2 * time.Second)
+// c11SettleFDs waits (up to 2 s) for the descriptor count to come back to want. After 20 time-outs in one process the
+// wait shrinks to 100 ms, so that a tree that really leaks does not take hours to report it.
+var c11SettleTimeouts int
+
+func c11SettleFDs(want int) int { return c11SettleFDsFor(want, 2*time.Second) }
+
+func c11SettleFDsFor(want int, d time.Duration) int {
+	if c11SettleTimeouts >= 20 && d > 100*time.Millisecond {
+		d = 100 * time.Millisecond
+	}
+	deadline := time.Now().Add(d)
 	for {
 		n := c11CountFDs()
-		if n == want || time.Now().After(deadline) {
+		if n == want {
+			return n
+		}
+		if time.Now().After(deadline) {
+			c11SettleTimeouts++
 			return n
 		}
 		time.Sleep(2 * time.Millisecond)
@@ -133,6 +145,11 @@ func c11SnapDiff(want, got map[string]string) string {
 		}
 	}
 	sort.Strings(d)
+	for i := range d { // names may carry arbitrary bytes: keep the reason printable ASCII
+		if q := strconv.QuoteToASCII(d[i]); q != `"`+d[i]+`"` {
+			d[i] = q
+		}
+	}
 	if len(d) > 4 {
 		d = append(d[:4], "...")
 	}
@@ -883,7 +900,7 @@ func c11Run(srv string, alloc, rich bool, ops []c11Op, nFull, partial int, clean
 		}
 		return frame, class, h
 	}
-	aborted := false
+	aborted, fdOff := false, false
 	for i := 0; i < nFull && !aborted; i++ {
 		op := ops[i]
 		frame, class, h := build(i)
@@ -992,10 +1009,12 @@ func c11Run(srv string, alloc, rich bool, ops []c11Op, nFull, partial int, clean
 				}
 			}
 		}
-		if isOS {
+		if isOS && !fdOff {
 			if n := c11CountFDs(); n != baseFD+liveCount {
-				if n2 := c11SettleFDs(baseFD + liveCount); n2 != baseFD+liveCount {
+				// opening and closing are synchronous with the response; the short wait only absorbs runtime noise
+				if n2 := c11SettleFDsFor(baseFD+liveCount, 100*time.Millisecond); n2 != baseFD+liveCount {
 					fail("fd-live-mismatch: after %s(%s) %d handles are open but %d descriptors are", nm, class, liveCount, n2-baseFD)
+					fdOff = true // reported once per run
 				}
 			}
 		}
